@@ -349,9 +349,10 @@ func c36WorkerMain() {
 				}
 			}
 			res.Stage, res.Ops = "ran", ops
-			res.StrayRec = len(readRecords(stray))
-			os.Remove(stray)
 		}()
+		// anything a recorder wrote outside an operation (during Parse, EnsureValid or NewTransport)
+		res.StrayRec = len(readRecords(filepath.Join(work, "stray.jsonl")))
+		os.Remove(filepath.Join(work, "stray.jsonl"))
 		line, _ := json.Marshal(res)
 		w.Write(line)
 		w.WriteByte('\n')
@@ -619,7 +620,18 @@ func c36() {
 			r.Violation(map[string]string{"rule": "panic", "tool": res.Case.Tool}, "panic while parsing/validating the URL or driving the transport: "+res.Error, res)
 			continue
 		case "parse-rejected", "invalid", "transport-rejected":
-			// rejected before any command ran — by construction nothing was recorded
+			// rejected: then no command may have run
+			if res.StrayRec > 0 {
+				r.Violation(map[string]string{"rule": "rejected-after-running-a-command", "tool": res.Case.Tool}, fmt.Sprintf("URL %q was rejected (%s: %s) but %d command(s) had already been run", res.Case.Raw, res.Stage, res.Error, res.StrayRec), res)
+			}
+			if res.Stage != "parse-rejected" {
+				r.Count("rejected_and_nothing_ran", 1)
+				if strings.HasPrefix(res.User, "-") || strings.HasPrefix(res.Host, "-") {
+					r.Count("rejected_with_leading_dash_component", 1)
+				}
+				r.Distinct(strings.Join([]string{res.Case.Tool, lead(res.User), lead(res.Host), res.Stage}, "|"))
+				r.Sample(map[string]any{"url": res.Case.Raw, "user": res.User, "host": res.Host, "rejected_by": res.Stage, "error": res.Error, "commands_run": 0})
+			}
 			continue
 		}
 		if res.StrayRec > 0 {
